@@ -9,10 +9,19 @@ check("C18", "model_checking", "explicit enumeration of all import graphs (<=4 p
       "Bounded: <=4 packages exhaustively, depth family up to 13. Limit semantics pinned to MaxImportRecursionDepth=10. git/https imports not covered (no network). Reference model is ours (lib in checks/c18.py).",
       "DESIGN.md section 3 C18", "goharness")
 
-ENGINES.append({"name": "rtengine", "path": "/verif/lib/rtengine.py", "serves_properties": ["C01"],
+ENGINES.append({"name": "rtengine", "path": "/verif/lib/rtengine.py", "serves_properties": ["C01", "C02", "C03"],
   "kind_free_text": "bounded exhaustive shape x value enumeration; reference codec (lib/refcodec.py, written from docs/reference) vs generated C++/Python readers and writers driven in-process by generated translator drivers"})
 
 check("C01", "exploration", "bounded exhaustive enumeration of type shapes x value deviations, every execution run through the generated C++ reader/writers and compared with a reference codec",
       "All type shapes with <=1 (quick) / <=2 (thorough) nested constructors over the leaf alphabet, each as step, stream item, record field and generic argument; for each every value with <=1 / <=2 deviations from the default over edge-value domains; each execution is reference-encoded (several block partitions), read by the generated C++ binary reader, re-written by the generated binary writer (CopyTo buffer sizes 1 and 3: single-item and batch paths) and by the NDJSON writer; outputs must decode under the reference decoder to exactly the written values, be the canonical encoding, and match the documented NDJSON mapping.",
       "Reference codec is ours, written from docs/reference/*.md. xtensor and date.h are replaced by stand-ins (verif_ndarray.h via cpp.overrideArrayHeader; date/date.h). std::vector<bool> shapes excluded (C08). Buffer-boundary family: see C16/C03 (to be added here).",
       "DESIGN.md section 3 C01", "rtengine")
+
+check("C02", "exploration", "bounded exhaustive enumeration of type shapes x JSON-representable value deviations through the generated C++ NDJSON writer/reader, compared with the documented mapping and a reference decoder",
+      "Same shape/value space as C01 without non-finite floats, with every 2-case union over all JSON-kind representatives (incl. date/time/datetime, enums, flags, generic parameters), 3-case unions over kind representatives, nullable unions, and records/streams whose consecutive items differ in optional presence in both orders. Each execution: reference binary -> generated reader -> NDJSON writer (header + every line compared with the documented mapping) -> NDJSON reader -> binary writer (reference-decoded, must equal what was written) and NDJSON -> NDJSON fixed point, with single-item and batch CopyTo.",
+      "Reference mapping is ours, from docs/reference/ndjson.md. Doc-silent spots are not compared: rendering of the null case of a tagged union, tagged-vs-untagged for unions declared over a type parameter, textual date rendering in C++ (date.h stand-in). Optional-of-nullable shapes are excluded (not representable in the documented JSON mapping).",
+      "DESIGN.md section 3 C02", "rtengine")
+check("C03", "exploration", "bounded exhaustive enumeration of shapes x values pushed through every ordered (writer, reader) pair of {C++, Python} x {binary, NDJSON}, each hop verified against the reference codec",
+      "C01/C02 packages generated for both languages; each reference-encoded execution goes through hop paths covering all (language, format) writer/reader pairs; every hop's output is verified (binary: decoded values and canonical bytes, hence byte-identical across languages up to block boundaries and map order; NDJSON: documented mapping). Python copy_to is exercised with stream iterables as-is, wrapped in generators and materialised as lists.",
+      "MATLAB cannot be executed (C14 compares its plan statically). Date text is not exchanged between the C++ stand-in and Python. Confirmed Python/C++ defects are packed into quarantine protocols (shapes.quarantine_class) and listed in known_findings.txt by class/language/hop kind.",
+      "DESIGN.md section 3 C03", "rtengine")
